@@ -205,6 +205,57 @@ def p1(h, st):
     h.done()
 
 
+# ---------------------------------------------------------------------------------------------------------------------
+# O4  histories on ONE solver object
+
+@contract("C08", "O4.solver_histories", level="B", structures=lambda tier: [dict(c) for c in (CONFIGS[0], CONFIGS[2], CONFIGS[4], CONFIGS[6])[: 3 if tier == "quick" else 4]],
+          native_samples=lambda st, rnd, tier: [{"seed": rnd.randint(0, 10 ** 6)}],
+          targets=[(VQ, "VQESolver.energy_estimation"), (VQ, "VQESolver.operator_expectation"), (VQ, "VQESolver.get_rdm")])
+def o4(h, st):
+    """bounded: ONE solver object along a history energy(t1), <N>(t2), energy(t2), get_rdm(t2), energy(t3), energy(t1), <Sz>(t1), energy(t2): every value equals the value a FRESHLY
+    built solver returns for the same parameters (and, for the energies, the independent <psi|H|psi> of a freshly built ansatz state): nothing a call leaves behind in the solver,
+    its ansatz, its backend or its Hamiltonian influences a later call; the energy of t1 is the same the second time"""
+    import random
+    import numpy as np
+    from tangelo.algorithms.variational import VQESolver, BuiltInAnsatze
+    from contracts.C07 import molecule
+    rnd = random.Random(int(h.integer("seed")))
+
+    def fresh():
+        s_ = VQESolver({"molecule": molecule(st["mol"]), "ansatz": getattr(BuiltInAnsatze, st["ansatz"]), "qubit_mapping": st["mapping"], "up_then_down": st["utd"]})
+        s_.build()
+        return s_
+    s = fresh()
+    n = s.ansatz.n_var_params
+    ts = [np.array([rnd.uniform(-1.5, 1.5) for _ in range(n)]) for _ in range(3)]
+    first = {}
+    history = [("energy", 0), ("N", 1), ("energy", 1), ("rdm", 1), ("energy", 2), ("energy", 0), ("Sz", 0), ("energy", 1)]
+    for k, (what, ti) in enumerate(history):
+        th = ts[ti]
+        tag = f"call {k} ({what}, parameter vector {ti}): "
+        f = fresh()
+        if what == "energy":
+            e = h.call(VQ, "VQESolver.energy_estimation", s, th.copy())
+            ef = f.energy_estimation(th.copy())
+            h.check(tag + "same energy as a freshly built solver", abs(e - ef) < 1e-9, detail=f"{e} vs {ef}")
+            w = f.ansatz.circuit.width
+            psi = state_of(f.ansatz.circuit, w)
+            ref = float(np.real(psi.conj() @ op_matrix(f.qubit_hamiltonian, w) @ psi))
+            h.check(tag + "energy == <psi|H|psi> (independent evaluation)", abs(e - ref) < 1e-8, detail=f"{e} vs {ref}")
+            if ti in first:
+                h.check(tag + "same energy as the first time these parameters were used", abs(e - first[ti]) < 1e-10, detail=f"{e} vs {first[ti]}")
+            first.setdefault(ti, e)
+        elif what in ("N", "Sz"):
+            v = h.call(VQ, "VQESolver.operator_expectation", s, what, th.copy())
+            vf = f.operator_expectation(what, th.copy())
+            h.check(tag + "same expectation value as a freshly built solver", abs(v - vf) < 1e-9, detail=f"{v} vs {vf}")
+        else:
+            r1, r2 = h.call(VQ, "VQESolver.get_rdm", s, th.copy())
+            f1, f2 = f.get_rdm(th.copy())
+            h.check(tag + "same RDMs as a freshly built solver", float(np.max(np.abs(np.asarray(r1) - np.asarray(f1)))) < 1e-9 and float(np.max(np.abs(np.asarray(r2) - np.asarray(f2)))) < 1e-9)
+    h.done()
+
+
 PROPERTY = {
     "level": "other",
     "explanation": "Deductive part: energy_estimation's assembly (which circuit and Hamiltonian reach the backend, reference / projective placement, deflation sum E + coeff * sum f_k) is proved "
